@@ -908,11 +908,21 @@ def descriptor_rule(repo: Repo, rep, P: str):
     else:
         rep.violation(f"{P}.R5", f"{mm.file.rel}:MetaModule.MappingArray.update_user_defined_controllers", s[:200],
                       "user-controller value types must be written to the per-instance UserDefined objects", mm.file.rel)
-    ll = norm(repo.own_method(mm, "load_label"))
-    if "controller = self.user_defined[" in ll and "controller.label = " in ll:
+    llf = repo.own_method(mm, "load_label")
+    ll = norm(llf)
+    from ..packed import single_defs as _sd17, resolve_names as _rn17
+    _ld = _sd17(llf)
+    label_stores = [_rn17(n.value, _ld) for n in ast.walk(llf) if isinstance(n, ast.Attribute) and isinstance(n.ctx, ast.Store) and n.attr == "label"]
+    per_instance = [x for x in label_stores if isinstance(x, ast.Subscript) and norm(x.value) == "self.user_defined"]
+    elsewhere = [x for x in label_stores if not (isinstance(x, ast.Subscript) and norm(x.value) == "self.user_defined")
+                 and (isinstance(x, ast.Subscript) or isinstance(x, ast.Attribute) or (isinstance(x, ast.Call) and "controllers" in norm(x)))]
+    if per_instance and len(per_instance) == len(label_stores):
         rep.ok(f"{P}.R5", f"{mm.file.rel}:MetaModule.load_label", "controller = self.user_defined[…]; controller.label = …", "labels live on per-instance objects")
+    elif elsewhere:
+        rep.violation(f"{P}.R5", f"{mm.file.rel}:MetaModule.load_label", f"{norm(elsewhere[0])[:80]}.label = …",
+                      "labels must be stored on the per-instance UserDefined objects", mm.file.rel)
     else:
-        rep.violation(f"{P}.R5", f"{mm.file.rel}:MetaModule.load_label", ll[:160], "labels must be stored on the per-instance UserDefined objects", mm.file.rel)
+        rep.inconclusive(f"{P}.R5", f"{mm.file.rel}:MetaModule.load_label", ll[:160], "where the loaded label is stored is not recognised", mm.file.rel)
 
 
 # ------------------------------------------------------------------------------------ globals
